@@ -262,14 +262,15 @@ static var Range_Iter_Init(var self) {
   return i;
 }
 
+static size_t Range_Len(var self);
+
 static var Range_Iter_Last(var self) {
   struct Range* r = self;
   struct Int* i = r->value;
-  if (r->step == 0) { return Terminal; }
-  if (r->step  > 0) { i->val = r->stop-1; }
-  if (r->step  < 0) { i->val = r->start; }
-  if (r->step  > 0 and i->val < r->start) { return Terminal; }
-  if (r->step  < 0 and i->val >= r->stop) { return Terminal; }
+  int64_t n = Range_Len(r);
+  if (n == 0) { return Terminal; }
+  if (r->step  > 0) { i->val = r->start  + r->step * (n-1); }
+  if (r->step  < 0) { i->val = r->stop-1 + r->step * (n-1); }
   return i;
 }
 
